@@ -21,8 +21,20 @@ def parseCosts (j : Json) : Option PartCosts := do
 def pairJson (p : Nat × Nat) : Json := Json.arr #[ofNat p.1, ofNat p.2]
 
 /-- one column: `{t, gts, cp}` -> per individual `[a0, a1]`, or the string "MendelianConflict" -/
+def parseEntries (j : Json) : Option (List (Nat × Nat × Nat × Nat)) := do
+  (← asArr? j).mapM (fun e => do
+    match ← natList? e with
+    | [i, h, a, q] => some (i, h, a, q)
+    | _ => none)
+
 def columnJson (ped : Ped) (c : Json) : Json :=
-  match getNat? c "t", (getObj? c "gts").bind natListList?, (getObj? c "cp").bind parseCosts with
+  let cp? : Option PartCosts :=
+    match (getObj? c "cp").bind parseCosts with
+    | some cp => some cp
+    | none => match getNat? c "t", (getObj? c "entries").bind parseEntries with
+      | some t, some es => some (costsFromEntries ped t es)
+      | _, _ => none
+  match getNat? c "t", (getObj? c "gts").bind natListList?, cp? with
   | some t, some gts, some cp =>
     match getAlleles ped t gts cp with
     | none => Json.str "MendelianConflict"
